@@ -31,9 +31,15 @@ NA = {
 import glob
 CLAIM = {os.path.basename(f)[:-5]: json.load(open(f)) for f in glob.glob("claims.d/*.json")}
 
+HOLD = {}
+if os.path.exists("hold.json"):
+    HOLD = json.load(open("hold.json"))
 checks, na = [], []
 for p in props:
     i = p["id"]
+    if i in HOLD:
+        na.append({"property_id": i, "reason": HOLD[i]})
+        continue
     if i in ids:
         cl = CLAIM[i]
         checks.append({
